@@ -2,6 +2,7 @@ import OH.Props.C07
 import OH.Props.C07E
 import OH.Props.TablesC07
 import OH.Props.ArithC07
+import OH.Props.ArithC07Month
 #print axioms OH.Props.C07.C07_normalize_preserves
 #print axioms OH.Props.C07.C07_normalize_preserves_schedule
 #print axioms OH.Props.C07.C07_selector_is_filter
@@ -23,3 +24,19 @@ import OH.Props.ArithC07
 #print axioms OH.Props.ArithC07.year_pred_in_frame
 #print axioms OH.Props.ArithC07.week_succ_in_frame
 #print axioms OH.Props.ArithC07.week_pred_in_frame
+#print axioms OH.Props.ArithC07Month.discr_range
+#print axioms OH.Props.ArithC07Month.discr_injective
+#print axioms OH.Props.ArithC07Month.discr_surjective
+#print axioms OH.Props.ArithC07Month.tryFrom_of_discr
+#print axioms OH.Props.ArithC07Month.tryFrom_none
+#print axioms OH.Props.ArithC07Month.tryFrom_spec
+#print axioms OH.Props.ArithC07Month.tryFrom_total
+#print axioms OH.Props.ArithC07Month.next_spec
+#print axioms OH.Props.ArithC07Month.prev_spec
+#print axioms OH.Props.ArithC07Month.month_succ_agree
+#print axioms OH.Props.ArithC07Month.month_pred_agree
+#print axioms OH.Props.ArithC07Month.month_succ_in_frame
+#print axioms OH.Props.ArithC07Month.month_pred_in_frame
+#print axioms OH.Props.ArithC07Month.next_eq_eval_model
+#print axioms OH.Props.ArithC07Month.prev_next
+#print axioms OH.Props.ArithC07Month.next_prev
